@@ -446,6 +446,47 @@ def correspondence(c, exe, rb, info, R, cfgs, rng):
         f1, f2 = parse_stream(b1)[1], parse_stream(b2)[1]
         lines.append("CMP %s | %s" % (fields_line(f1), fields_line(f2)))
         meta.append((tag, cfg, R.binary_diff(b1, b2)))
+        # the report itself (output_option 0): model diffReport vs the difference stream the library writes
+        rc0, rep = R.binary_diff_report(b1, b2)
+        lines.append("DIFF %s | %s" % (fields_line(f1), fields_line(f2)))
+        meta.append(("DIFF:" + tag, cfg, (rc0, rep)))
+
+    def edited(b, fn_):
+        hdr, fs, tail = parse_stream(b)
+        return frame(hdr, fn_([(t, bytearray(p)) for t, p in fs]), tail)
+
+    def stream_edits(b, cfg):
+        """second streams made from a real one at byte level (reb_binary_diff is a function of the two buffers): the LAST
+        element of every member-wise compared array changed in a compared member / in a pointer member only, a walltime
+        field changed, a field removed, fields in another order"""
+        ids = {r["name"]: r["id"] for r in info["rows"]}
+        for name, ename in (("particles", "reb_particle"), ("var_config", "reb_variational_configuration")):
+            el = info["elems"][ename]
+            for kind in ("value", "pointer"):
+                ms = [m for m in el["members"] if (m["kind"] in ("ptr", "fptr")) == (kind == "pointer")]
+                if not ms:
+                    continue
+                m = ms[rng.next() % len(ms)]
+
+                def ed(fs, m=m, name=name, el=el):
+                    for t, p in fs:
+                        if t == ids[name] and len(p) >= el["size"]:
+                            p[len(p) - el["size"] + m["off"] + (rng.next() % m["size"])] ^= 0x10
+                    return [(t, bytes(p)) for t, p in fs]
+                if any(t == ids[name] and len(p) >= el["size"] for t, p in parse_stream(b)[1]):
+                    pair("last-element-%s:%s" % (kind, name), b, edited(b, ed), cfg)
+        wall = [r["id"] for r in info["rows"] if r["name"].startswith(info["wallprefix"])]
+
+        def edw(fs):
+            for t, p in fs:
+                if t in wall and p:
+                    p[0] ^= 1
+            return [(t, bytes(p)) for t, p in fs]
+        pair("walltime-only", b, edited(b, edw), cfg)
+        drop = ids["particles"] if rng.chance(0.5) else ids["dt"]
+        pair("field-removed", b, edited(b, lambda fs: [(t, bytes(p)) for t, p in fs if t != drop]), cfg)
+        pair("field-added", edited(b, lambda fs: [(t, bytes(p)) for t, p in fs if t != drop]), b, cfg)
+        pair("reordered", b, edited(b, lambda fs: [(t, bytes(p)) for t, p in (fs[:-1][::-1] + fs[-1:])]), cfg)
     for i, (cfg, a) in enumerate(sims):
         b = R.save(a)
         cp, _ = R.copy(a)
@@ -480,6 +521,8 @@ def correspondence(c, exe, rb, info, R, cfgs, rng):
             rb.clibrebound.reb_simulation_add_display_settings(ctypes.byref(cp4))
             pair("extra-field", b, R.save(cp4), cfg)
             pair("missing-field", R.save(cp4), b, cfg)
+        if i % 3 == 0 or cfg.get("variational") or cfg.get("megno"):
+            stream_edits(b, cfg)
         # stepped
         cp3, _ = R.copy(a)
         try:
@@ -492,13 +535,29 @@ def correspondence(c, exe, rb, info, R, cfgs, rng):
         c.corr_break("driver returned %d lines for %d ops" % (len(out), len(lines)))
         return
     hist = {}
+    nrep = {"pairs": 0, "entries": 0, "vanished": 0, "empty": 0}
     for o, (tag, cfg, real) in zip(out, meta):
+        if tag.startswith("DIFF:"):
+            rc0, rep = real
+            c.count(("DIFF", tag.split(":")[1], cfg_key(cfg)))
+            nrep["pairs"] += 1; nrep["entries"] += len(rep); nrep["vanished"] += sum(1 for t, p in rep if not p); nrep["empty"] += (not rep)
+            toks = o.split()
+            got = parse_fields_line(toks[1:]) if toks[:1] == ["F"] else None
+            if got != rep:
+                gd, rd = dict(got or []), dict(rep)
+                ids_ = sorted(t for t in set(gd) | set(rd) if gd.get(t) != rd.get(t))
+                c.corr_break("model diffReport differs from the difference stream reb_binary_diff writes (%s): ids %s%s" % (
+                    tag[5:], ids_[:6], "" if ids_ else " (order)"), {"cfg": cfg, "pair": tag, "model_ids": [t for t, _ in (got or [])][:20], "real_ids": [t for t, _ in rep][:20]})
+            continue
         c.count(("CMP", tag.split(":")[0], cfg_key(cfg)))
         k = "%s->%d" % (tag.split(":")[0], real)
         hist[k] = hist.get(k, 0) + 1
         if o.strip() != str(real):
             c.corr_break("model compare = %s but reb_binary_diff = %d on a pair of real streams (%s)" % (o.strip(), real, tag), {"cfg": cfg, "pair": tag})
-    c.cov["compare_pairs"] = len(lines)
+    c.cov["compare_pairs"] = len(lines) - nrep["pairs"]
+    c.cov["report_pairs"] = nrep
+    if nrep["pairs"] == 0 or nrep["vanished"] == 0 or nrep["empty"] == 0:
+        c.corr_break("the report tie did not see all kinds of report (%s)" % nrep)
     c.cov["compare_pairs_histogram"] = hist
 
 
